@@ -321,6 +321,31 @@ func runC12(r *ev.Recorder) {
 		}
 	}
 
+	// string literals appended to statements built by Add(parts...) from ONE slice with spare capacity
+	for extra := 0; extra <= 3; extra++ {
+		for n := 1; n <= 4; n++ {
+			parts := make([]jen.Code, 0, n+extra)
+			head := ""
+			for i := 0; i < n; i++ {
+				parts = append(parts, jen.Id(fmt.Sprintf("p%d", i)))
+				head += fmt.Sprintf("p%d ", i)
+			}
+			strs := []string{"one", "two", "`", ""}
+			var sts []*jen.Statement
+			for _, v := range strs {
+				sts = append(sts, jen.Add(parts...).Lit(v))
+			}
+			for i, st := range sts {
+				got, want := jh.Raw(st), head+jh.Raw(jen.Lit(strs[i])).Out
+				r.Eval(1)
+				r.Distinct(fmt.Sprintf("add-spread-%d-%d-%d", extra, n, i))
+				if !got.OK() || got.Out != want {
+					r.Violate(ev.Violation{Signature: "c12:literal-after-spread-slice", What: fmt.Sprintf("Add(parts...) of one slice (len %d, cap %d) used %d times, Lit(%q) appended to use %d: renders %q, want %q", n, n+extra, len(strs), strs[i], i, got, want), Case: ev.JSON(c12Case{Kind: "clone"})})
+				}
+			}
+		}
+	}
+
 	// strings, runes and bytes handed over through the ...Func constructors from a cursor that moves
 	// on straight after the call: the literal is the value at the time of the call
 	{
